@@ -88,7 +88,7 @@ func fixedCases() []fixed {
 			return out
 		}
 	}
-	return []fixed{
+	return append(markerByteCases(into), []fixed{
 		// a vertex id that extends an existing id by 0x00: listed under the truncated id
 		{"vertex-id-nul-suffix", 0, into(hv("v1\x00", "A", "vertex-id"))},
 		{"vertex-id-nul-middle", 0, into(hv("v1\x00x", "B", "vertex-id"))},
@@ -163,7 +163,38 @@ func fixedCases() []fixed {
 		{"control-bad-prop-names", 0, into(
 			Write{Kind: "addVertex", Elems: []Elem{bv("nv", "A", map[string]interface{}{"a.b": 1.0})}, Hostile: []string{"prop-name"}},
 			Write{Kind: "addVertex", Elems: []Elem{bv("v1", "A", map[string]interface{}{"k\x00": 1.0})}, Hostile: []string{"prop-name"}})},
+	}...)
+}
+
+// markerByteCases: every identifier role x the bytes next to the key separator that the
+// key layouts use as markers or that sit at the ends of the byte range (0x01, 0x02,
+// 0x1f, 0x7f) x position (trailing, leading, alone), one element per case, followed by
+// a delete of the same element; the complete observation must show the string verbatim.
+func markerByteCases(into func(ws ...Write) func(ga, gb string) []Write) []fixed {
+	var out []fixed
+	for _, b := range []string{"\x01", "\x02", "\x1f", "\x7f"} {
+		for _, pos := range []string{"trailing", "leading", "alone"} {
+			mk := func(base string) string {
+				switch pos {
+				case "trailing":
+					return base + b
+				case "leading":
+					return b + base
+				}
+				return b
+			}
+			name := func(role string) string { return fmt.Sprintf("marker-%s-%s-%q", role, pos, b) }
+			out = append(out,
+				fixed{name("vertex-id"), 1, into(hv(mk("v1"), "A", "vertex-id"))},
+				fixed{name("vertex-label"), 1, into(hv("v1", mk("A"), "label"), hv("nv", mk("A"), "label"))},
+				fixed{name("edge-id"), 1, into(he(mk("e1"), "x", "v1", "v2", "edge-id"))},
+				fixed{name("edge-label"), 1, into(he("ne", mk("x"), "v1", "v2", "label"), he("e1", mk("x"), "v2", "v1", "label"), he("e1", "x", "v1", "v2"))},
+				fixed{name("edge-from"), 1, into(he("ne", "x", mk("v1"), "v2", "from"))},
+				fixed{name("edge-to"), 1, into(he("ne", "x", "v1", mk("v2"), "to"))},
+			)
+		}
 	}
+	return out
 }
 
 func TestFixedCases(t *testing.T) {
